@@ -539,7 +539,7 @@ fn run_seq<T: Q>(seed: u64, index: u64, len: usize, want: &str, trace: bool) -> 
         let n0 = log.len();
         let res = catch_unwind(AssertUnwindSafe(|| step(&mut q, &mut m, &mut r, &mut log)));
         if trace { for (k, s) in log.iter().enumerate().skip(n0) { println!("  {:3}: {}", k, s); } use std::io::Write; std::io::stdout().flush().ok(); }
-        let f = match res { Ok(Ok(())) => continue, Ok(Err(f)) => f, Err(e) => Fail { props: "C04".into(), what: format!("panic: {}", e.downcast_ref::<String>().cloned().or(e.downcast_ref::<&str>().map(|s| s.to_string())).unwrap_or_default()) } };
+        let f = match res { Ok(Ok(())) => continue, Ok(Err(f)) => f, Err(e) => Fail { props: if log.last().map_or(false, |s| s.starts_with("extend(") || s.starts_with("rebuild through")) { "C04,C07".into() } else { "C04".into() }, what: format!("panic: {}", e.downcast_ref::<String>().cloned().or(e.downcast_ref::<&str>().map(|s| s.to_string())).unwrap_or_default()) } };
         if f.props == "FAULT" { lenient = true; }
         if lenient { continue; }
         if want == "any" || f.props.split(',').any(|p| p == want) { return Some((format!("[{}] {}", f.props, f.what), log)); }
